@@ -127,7 +127,7 @@ def stepEvent (r : Run) (ws : List String) : EvOut :=
     | _, _, _, _, _, _, _ => .bad
   | ["otaa"] =>
     match macJoinOtaa rngNext r.m r.rng with
-    | .ok (o, m, g) => .out s!"join {showTx o.tx} nonce={o.devNonce}" { r with m := m, rng := g, win := some (o.tx.rx1.maxPayload, o.tx.rx2.maxPayload) }
+    | .ok (o, m, g) => .out s!"join {showTx o.tx} nonce={o.devNonce} jr=ok" { r with m := m, rng := g, win := some (o.tx.rx1.maxPayload, o.tx.rx2.maxPayload) }
     | .error f => .fault (showFault f)
   | ["send", port, conf, data] =>
     match parseNat? port, parseBool? conf, natsOfHex? data with
@@ -152,7 +152,8 @@ def stepEvent (r : Run) (ws : List String) : EvOut :=
           match macHandleRx r.m v mp.toNat snr (w = "rxc") with
           | .ok (some o, m) =>
             let dl := match o.downlink with | some (p, d) => s!"{p}:{hexNat d}" | none => "-"
-            .out s!"resp={showResp o.resp} dl={dl}" { r with m := m }
+            let keys := if o.resp == .joinSuccess then " keys=ok" else ""
+            .out s!"resp={showResp o.resp} dl={dl}{keys}" { r with m := m }
           | .ok (none, m) => .out "resp=NotJoined dl=-" { r with m := m }
           | .error f => .fault (showFault f)
       | _, _ => .bad
@@ -169,6 +170,13 @@ def stepEvent (r : Run) (ws : List String) : EvOut :=
     | some n => .out "ok" { r with m := macSetDatarate r.m n }
     | none => .bad
   | ["snap"] => .out (showSnap r.m) r
+  | ["delays"] =>
+    .out s!"d={macRxDelay r.m false false},{macRxDelay r.m false true},{macRxDelay r.m true false},{macRxDelay r.m true true}" r
+  | ["persist"] =>
+    -- serialising and restoring a session is the identity on the model (C20: `restore_save`)
+    match r.m.st with
+    | .joined _ => .out "persist=ok eq=1" r
+    | _ => .out "persist=nosession" r
   | _ => .bad
 
 def runEvents : List (List String) → Run → List String → List String
@@ -202,6 +210,35 @@ def run (line : List String) : String :=
   | hd :: evs =>
     match parseHeader? (splitWords hd) with
     | some r => String.intercalate " ; " (runEvents (evs.map splitWords) r [])
+    | none => "bad-op"
+  | [] => "bad-op"
+
+/-- C07: events marked `*` are frames the reference codec rejects. Runs the history with and
+without them; answer = outputs of the full run plus the verdict of the twin comparison. -/
+def runTwin (line : List String) : String :=
+  let segs := (String.intercalate " " line).splitOn ";"
+  match segs with
+  | hd :: evs =>
+    match parseHeader? (splitWords hd) with
+    | some r =>
+      let evs := evs.map (fun e => e.trimAscii.toString)
+      let starred := evs.map (fun e => e.startsWith "*")
+      let plain := evs.map (fun e => if e.startsWith "*" then (e.drop 1).toString else e)
+      let full := runEvents (plain.map splitWords) r []
+      let twinEvs := (plain.zip starred).filterMap (fun (e, st) => if st then none else some e)
+      let twin := runEvents (twinEvs.map splitWords) r []
+      -- compare
+      let rec cmp : List String → List Bool → List String → Bool
+        | [], _, _ => true
+        | o :: os, st :: sts, tw =>
+          if st then (o == "resp=NoUpdate dl=-" || o == "resp=NotJoined dl=-") && cmp os sts tw
+          else match tw with
+            | t :: tw' => o == t && cmp os sts tw'
+            | [] => false
+        | _ :: _, [], _ => false
+      let faulty := full.any (fun o => o == "PANIC" || o == "HANG")
+      let verdict := if !faulty && full.length == evs.length && cmp full starred twin then "ok" else "FAIL:model-twin-differs"
+      s!"{String.intercalate " ; " full} ## oracle={verdict}"
     | none => "bad-op"
   | [] => "bad-op"
 
